@@ -587,7 +587,7 @@ class InverseLaplaceTransformer(UnilateralInverseTransformer):
             try:
                 cresult, uresult = self.term1(expr, s, t, **kwargs)
             except:
-                return Zero, self.sympy(expr, s, t)
+                cresult, uresult = Zero, self.sympy(expr, s, t)
 
         if delay != 0:
             cresult = cresult.subs(t, t - delay)
